@@ -10,7 +10,9 @@
 (***************************************************************************)
 EXTENDS RuleSet, TLC, Json, FiniteSets
 
-CONSTANTS MaxCalls, NArgs, NEvals
+CONSTANTS MaxCalls, NArgs, NEvals,
+          Scale     \* 0: the exhaustive universe above.  n > 0: ONE long history instead (see ScaleSeq): n distinct
+                    \* arguments plus long arguments that differ only at their far end, each called again later
 VARIABLE c        \* sequence of [fn, arg, cut]  (cut: this call starts a new rule)
 
 \* distinct-but-similar arguments; argument identity is identity of the value as written: 0.0 and -0.0, 1.0 and
@@ -18,7 +20,17 @@ VARIABLE c        \* sequence of [fn, arg, cut]  (cut: this call starts a new ru
 ArgPool == << I(1), St("1"), VFloat(FZero(1)), VFloat(FZero(-1)), Dc(10, 1), Dc(100, 2), VFloat(FNaN),
               VMap(<< <<S("x"), I(1)>>, <<S("y"), I(2)>> >>), VMap(<< <<S("x: i1, y"), I(2)>> >>), VVec(<<I(1)>>),
               Fl(1, 1, 0), St("i1"), Dc(1, 0), VMap(<< <<S("a"), I(1)>> >>), I(2) >>
-Args == SubSeq(ArgPool, 1, NArgs)
+LongStr(n, last) == VStr([i \in 1..n |-> IF i = n THEN 48 + last ELSE 97 + (i % 7)])
+LongVec(n, last) == VVec([i \in 1..n |-> IF i = n THEN I(1000 + last) ELSE I(i)])
+ScaleArgs == [i \in 1..Scale |-> I(i)] \o <<LongStr(Scale, 1), LongStr(Scale, 2), LongVec(Scale, 1), LongVec(Scale, 2)>>
+Args == IF Scale > 0 THEN ScaleArgs ELSE SubSeq(ArgPool, 1, NArgs)
+NA == Len(Args)
+\* rule 1 calls the cacheable f on every argument; rule 2 calls it again on the first, a middle and the last plain
+\* argument and on the four long ones, then the non-cacheable g twice; rule 3 is f on the first argument alone
+ScaleSeq == [i \in 1..NA |-> [fn |-> 1, arg |-> i, cut |-> i = 1]]
+            \o <<[fn |-> 1, arg |-> 1, cut |-> TRUE], [fn |-> 1, arg |-> (Scale + 1) \div 2, cut |-> FALSE], [fn |-> 1, arg |-> Scale, cut |-> FALSE]>>
+            \o [i \in 1..4 |-> [fn |-> 1, arg |-> Scale + i, cut |-> FALSE]]
+            \o <<[fn |-> 2, arg |-> 1, cut |-> FALSE], [fn |-> 2, arg |-> 1, cut |-> FALSE], [fn |-> 1, arg |-> 1, cut |-> TRUE]>>
 Tagged == <<[r |-> "tagged"]>>
 Funcs == << [name |-> S("f"), cacheable |-> TRUE, suspend |-> 0, script |-> Tagged],
             [name |-> S("g"), cacheable |-> FALSE, suspend |-> 0, script |-> Tagged],
@@ -29,8 +41,8 @@ Funcs == << [name |-> S("f"), cacheable |-> TRUE, suspend |-> 0, script |-> Tagg
             [name |-> S("z"), cacheable |-> TRUE, suspend |-> 0, script |-> <<[r |-> "v", v |-> VNone]>>] >>
 NF == Len(Funcs)
 
-Init == c = <<>>
-Next == /\ Len(c) < MaxCalls
+Init == c = IF Scale > 0 THEN ScaleSeq ELSE <<>>
+Next == /\ Scale = 0 /\ Len(c) < MaxCalls
         /\ \E f \in 1..NF, a \in 1..NArgs, cut \in BOOLEAN :
              /\ (c = <<>> => cut)
              /\ c' = Append(c, [fn |-> f, arg |-> a, cut |-> cut])
@@ -42,8 +54,10 @@ Split(i, acc) == IF i > Len(c) THEN acc
                  ELSE Split(i + 1, [acc EXCEPT ![Len(acc)] = Append(@, c[i])])
 Groups == Split(1, <<>>)
 RName(i) == <<114, 48 + i>>
+MaxK == IF Scale > 0 THEN NA ELSE MaxCalls
 CallE(x) == Call(Funcs[x.fn].name, Val(Args[x.arg]))
-RS == [rules |-> [i \in 1..Len(Groups) |-> [name |-> RName(i), expr |-> VecE([k \in 1..Len(Groups[i]) |-> CallE(Groups[i][k])])]],
+RS == LET G == Groups IN
+      [rules |-> [i \in 1..Len(G) |-> [name |-> RName(i), expr |-> VecE([k \in 1..Len(G[i]) |-> CallE(G[i][k])])]],
        funcs |-> Funcs, syms |-> <<>>]
 Input == VNone
 
@@ -56,33 +70,33 @@ Log == Run.gs.calls
 
 \* all call sites: [ev, r, k]; everything below takes the run (outs, gs) as a parameter so that TLC
 \* evaluates it once per state
-Sites == { [ev |-> e, r |-> r, k |-> k] : e \in 1..NEvals, r \in 1..Len(Groups), k \in 1..MaxCalls }
-Live(run, s) == s.k <= Len(Groups[s.r]) /\ run.outs[s.ev][s.r].o.ok /\ Groups[s.r][s.k].fn # 5      \* (z's results are not tagged)
-SiteFn(s) == Funcs[Groups[s.r][s.k].fn]
-SiteArg(s) == Args[Groups[s.r][s.k].arg]
+SitesOf(G) == { [ev |-> e, r |-> r, k |-> k] : e \in 1..NEvals, r \in 1..Len(G), k \in 1..MaxK }
+Live(run, G, s) == s.k <= Len(G[s.r]) /\ run.outs[s.ev][s.r].o.ok /\ G[s.r][s.k].fn # 5      \* (z's results are not tagged)
+SiteFn(G, s) == Funcs[G[s.r][s.k].fn]
+SiteArg(G, s) == Args[G[s.r][s.k].arg]
 SiteRes(run, s) == run.outs[s.ev][s.r].o.v.xs[s.k]           \* [arg, n]
 InvokedOk(l) == FnResult(Funcs[CHOOSE i \in 1..NF : Funcs[i].name = l.f], l.arg, l.n).ok
 
 \* a result is never reused for a different function or argument, nor from another evaluation
-KeyedByBothAndFreshP(run, live) ==
+KeyedByBothAndFreshP(run, G, live) ==
   \A s \in live :
-     /\ SiteRes(run, s).xs[1] = SiteArg(s)
+     /\ SiteRes(run, s).xs[1] = SiteArg(G, s)
      /\ \E i \in 1..Len(run.gs.calls) : LET l == run.gs.calls[i] IN
-           l.f = SiteFn(s).name /\ l.arg = SiteArg(s) /\ I(l.n) = SiteRes(run, s).xs[2] /\ l.ev = s.ev
+           l.f = SiteFn(G, s).name /\ l.arg = SiteArg(G, s) /\ I(l.n) = SiteRes(run, s).xs[2] /\ l.ev = s.ev
 \* cacheable: at most one successful invocation per evaluation and (function, argument); later calls see it
-AtMostOnceAndHitsSeeFirstP(run, live) ==
+AtMostOnceAndHitsSeeFirstP(run, G, live) ==
   LET log == run.gs.calls IN
   /\ \A i, j \in 1..Len(log) :
         (i # j /\ log[i].ev = log[j].ev /\ log[i].f = log[j].f /\ log[i].arg = log[j].arg /\ log[i].f \notin {S("g"), S("e")})
           => ~(InvokedOk(log[i]) /\ InvokedOk(log[j]))
-  /\ \A s, t \in live : (s.ev = t.ev /\ SiteFn(s).cacheable /\ SiteFn(s) = SiteFn(t) /\ SiteArg(s) = SiteArg(t))
+  /\ \A s, t \in live : (s.ev = t.ev /\ SiteFn(G, s).cacheable /\ SiteFn(G, s) = SiteFn(G, t) /\ SiteArg(G, s) = SiteArg(G, t))
           => SiteRes(run, s) = SiteRes(run, t)
 \* non-cacheable: every call is an invocation of its own
-NonCacheableAlwaysInvokedP(run, live) ==
-  \A s, t \in live : (s # t /\ ~SiteFn(s).cacheable /\ SiteFn(s) = SiteFn(t)) => SiteRes(run, s).xs[2] # SiteRes(run, t).xs[2]
+NonCacheableAlwaysInvokedP(run, G, live) ==
+  \A s, t \in live : (s # t /\ ~SiteFn(G, s).cacheable /\ SiteFn(G, s) = SiteFn(G, t)) => SiteRes(run, s).xs[2] # SiteRes(run, t).xs[2]
 \* failures are not remembered: the only failing outcome is h's first invocation, and it names h
-FailuresNamedNotCachedP(run) ==
-  /\ \A e \in 1..NEvals, r \in 1..Len(Groups) : ~run.outs[e][r].o.ok =>
+FailuresNamedNotCachedP(run, G) ==
+  /\ \A e \in 1..NEvals, r \in 1..Len(G) : ~run.outs[e][r].o.ok =>
         run.outs[e][r].o \in {FnErr(S("h"), S("h1")), FnErr(S("e"), InvalidTypeText)}
   /\ Cardinality({i \in 1..Len(run.gs.calls) : run.gs.calls[i].f = S("h") /\ run.gs.calls[i].n = 1}) <= 1
   \* z (cacheable, result None): at most one invocation per evaluation and argument
@@ -96,11 +110,12 @@ MachineRefinesDenP(run) ==
 \* one invariant, so that the run is computed once per state; TLC reports which conjunct fails
 CachingTransparent ==
   LET run == Run
-      live == {s \in Sites : Live(run, s)}
-  IN /\ KeyedByBothAndFreshP(run, live)
-     /\ AtMostOnceAndHitsSeeFirstP(run, live)
-     /\ NonCacheableAlwaysInvokedP(run, live)
-     /\ FailuresNamedNotCachedP(run)
+      G == Groups
+      live == {s \in SitesOf(G) : Live(run, G, s)}
+  IN /\ KeyedByBothAndFreshP(run, G, live)
+     /\ AtMostOnceAndHitsSeeFirstP(run, G, live)
+     /\ NonCacheableAlwaysInvokedP(run, G, live)
+     /\ FailuresNamedNotCachedP(run, G)
      /\ MachineRefinesDenP(run)
      /\ (c # <<>> => PrintT("CASE " \o ToJson([env |-> [funcs |-> RS.funcs, syms |-> RS.syms], rules |-> RS.rules,
                                   inputs |-> [e \in 1..NEvals |-> Input], schedule |-> [e \in 1..NEvals |-> [a |-> "run", e |-> e]],
